@@ -1680,7 +1680,8 @@ func (x *Exec) deferStmt(s *ast.DeferStmt, st *State) {
 		}
 	}
 	st.defers = append(st.defers, deferred{run: func(s2 *State) []*State {
-		x.callWith(call, s2, recvVal, argVals)
+		res := x.callWith(call, s2, recvVal, argVals)
+		x.recordCall(call, s2, argVals, res)
 		return x.live(s2)
 	}})
 }
